@@ -28,6 +28,9 @@ def _find_calls(fn, name):
 
 def run(ctx):
     rep = ctx.report
+    from ..typestate import check_sentinels as _sentinels
+    rep.rule('R9.10', 'a local that starts as None is not compared (==, !=) with per-row values before it was tested for None: None is a legal key and cell value')
+    ctx.floor('sentinel_scan_functions', _sentinels(ctx, rep, 'R9.10', ctx.functions(['petl.transform.reductions', 'petl.transform.dedup'])), 20)
     from ..typestate import check_functions as _rowbuffers
     rep.rule('R9.9', 'output rows are assembled in a container that is created anew (or emptied) between two deliveries: no cell of one output row is carried into the next (row-buffer typestate)')
     ctx.floor('row_buffer_generators', _rowbuffers(ctx, rep, 'R9.9', ctx.functions(['petl.transform.reductions', 'petl.util.base'])), 8)
